@@ -1,0 +1,324 @@
+//go:build verif
+
+package rjson
+
+// Contracts for rjv, the verification-condition generator in /verif (see /verif/DESIGN.md).
+// This file contains comments only. It is compiled only with -tags verif and then declares nothing.
+//
+// Syntax: Go expressions plus `==>`, `<==>`, forall(i, lo, hi, body), old(x), and spec functions
+// (ws, digit, tokclass, rok/rval/rp = result functions of a deterministic reader, ...).
+// Parameters in `ensures` denote entry values; `loop k` is the k-th loop in source order;
+// `cuts` name the labels used as cut points in the generated machines; `candidates` are
+// invariant atoms inferred (Houdini) and then re-verified at every cut point.
+//
+// ---------------------------------------------------------------- rjson.go / machine_helpers.go
+//@ func countWhitespace(data) (n)
+//@   input data
+//@   ensures 0 <= n && n <= len(data)
+//@   ensures forall(j, 0, n, ws(data[j]))
+//@   ensures n == len(data) || !ws(data[n])
+//@   loop 1 invariant 0 <= i && i <= len(data)
+//@   loop 1 invariant forall(j, 0, i, ws(data[j]))
+//@   loop 1 decreases len(data) - i
+//
+//@ func skipFloatExp(data, p, pe) (r, err)
+//@   input data
+//@   requires 0 < p && p <= pe && pe == len(data)
+//@   ensures r >= p - 1 && r < pe
+//@   loop 1 invariant startP == old(p) && startP <= p && p <= pe && pe == old(pe)
+//@   loop 1 decreases pe - p
+//
+//@ func skipFloatDec(data, p, pe) (r, err)
+//@   input data
+//@   requires 0 < p && p <= pe && pe == len(data)
+//@   ensures r >= p - 1 && r < pe
+//@   loop 1 invariant old(p) < p && p <= pe && pe == old(pe)
+//@   loop 1 decreases pe - p
+//
+//@ func growBytesSliceCapacity(slice, size) (r)
+//@   ensures len(r) == len(slice) && cap(r) >= size && cap(r) >= cap(slice)
+//@   ensures forall(j, 0, len(slice), r[j] == slice[j])
+//
+//@ func getu4(data) (r)
+//@   input data
+//@   loop 1 unroll
+//@   ensures -1 <= r && r <= 0xFFFF
+//@   ensures r >= 0 ==> len(data) >= 6
+//
+//@ func unescapeUnicodeChar(s, data) (result, bytesHandled, ok)
+//@   input s
+//@   ensures !ok ==> bytesHandled == 0 && len(result) == len(data)
+//@   ensures ok ==> (bytesHandled == 6 || bytesHandled == 12) && bytesHandled <= len(s)
+//@   ensures ok ==> len(data) + 1 <= len(result) && len(result) <= len(data) + 4
+//@   ensures forall(j, 0, len(data), result[j] == data[j])
+// ---------------------------------------------------------------- generated machines (safety layer)
+//@ func skipValue(data, stack) (p, stack1, err)
+//@   input data
+//@   scratch stack
+//@   cuts st_case_*, _again
+//@   candidates 0 <= p; p < pe; 0 <= top; top <= len(stack); top >= 1; top == 0; top <= 10000
+//@   candidates top == 0 ==> retmain(cs); top >= 1 ==> retsub(cs)
+//@   candidates top >= 1 ==> retmain(stack[0]); forall(i, 1, top, retsub(stack[i]))
+//@   measure pe - p
+//@   ensures err == nil ==> 0 <= p && p <= len(data)
+//
+//@ func skipValueFast(data, stack) (p, stack1, err)
+//@   input data
+//@   scratch stack
+//@   cuts st_case_*, _again
+//@   candidates 0 <= p; p < pe; 0 <= top; top <= len(stack); top >= 1; top == 0; top <= 10000
+//@   candidates top == 0 ==> retmain(cs); top >= 1 ==> retsub(cs)
+//@   candidates top >= 1 ==> retmain(stack[0]); forall(i, 1, top, retsub(stack[i]))
+//@   measure pe - p
+//@   ensures err == nil ==> 0 <= p && p <= len(data)
+//
+//@ func handleArrayValues(data, handler, stack) (p, stack1, err)
+//@   input data
+//@   scratch stack
+//@   ghost herr
+//@   candidates ghost_herr == nil
+//@   ensures [C09] ghost_herr != nil ==> err == ghost_herr
+//@   cuts st_case_*, _again
+//@   candidates 0 <= p; p < pe; 0 <= top; top <= len(stack); top >= 1; top == 0
+//@   candidates top == 0 ==> retmain(cs); top >= 1 ==> retsub(cs)
+//@   candidates top >= 1 ==> retmain(stack[0]); forall(i, 1, top, retsub(stack[i]))
+//@   measure pe - p
+//@   ensures err == nil ==> 0 <= p && p <= len(data)
+//
+//@ func handleObjectValues(data, handler, stack) (p, stack1, err)
+//@   input data
+//@   scratch stack
+//@   ghost herr
+//@   candidates ghost_herr == nil
+//@   ensures [C09] ghost_herr != nil ==> err == ghost_herr
+//@   cuts st_case_*, _again
+//@   candidates 0 <= p; p < pe; 0 <= top; top <= len(stack); top >= 1; top == 0
+//@   candidates top == 0 ==> retmain(cs); top >= 1 ==> retsub(cs)
+//@   candidates top >= 1 ==> retmain(stack[0]); forall(i, 1, top, retsub(stack[i]))
+//@   measure pe - p
+//@   ensures err == nil ==> 0 <= p && p <= len(data)
+//@   candidates 0 <= currentFieldStart; currentFieldStart < p; currentFieldStart + 2 <= p; currentFieldStart + 2 <= currentFieldEnd; currentFieldEnd <= p
+//
+//@ func readNull(data) (p, err)
+//@   input data
+//@   cuts st_case_*
+//@   candidates 0 <= p; p < pe
+//@   measure pe - p
+//@   ensures err == nil ==> 0 <= p && p <= len(data)
+//
+//@ func readBool(data) (val, p, err)
+//@   input data
+//@   cuts st_case_*
+//@   candidates 0 <= p; p < pe
+//@   measure pe - p
+//@   ensures err == nil ==> 0 <= p && p <= len(data)
+//@ func unescapeStringContent(data, dst) (val, p, err)
+//@   input data
+//@   cuts st_case_*
+//@   candidates 0 <= p; p < pe; 0 <= segStart; segStart <= p
+//@   candidates p == segStart + 1; p == segStart + 2; p == segStart + 3; p == segStart + 4; p == segStart + 5
+//@   measure pe - p
+//@   ensures err == nil ==> 0 <= p && p <= len(data)
+//
+//@ func appendRemainderOfString(data, dst) (val, p, err)
+//@   input data
+//@   cuts st_case_*
+//@   candidates 0 <= p; p < pe; 0 <= segStart; segStart <= p
+//@   candidates p == segStart + 1; p == segStart + 2; p == segStart + 3; p == segStart + 4; p == segStart + 5
+//@   measure pe - p
+//@   ensures err == nil ==> 0 <= p && p <= len(data)
+//
+//@ func UnescapeStringContent(data, dst) (val, p, err)
+//@   input data
+//@   ensures err == nil ==> 0 <= p && p <= len(data)
+// ---------------------------------------------------------------- public wrappers
+//@ func SkipValue(data, buffer) (p, err)
+//@   input data
+//@   assigns buffer.stackBuf
+//@   ensures err == nil ==> 0 <= p && p <= len(data)
+//
+//@ func SkipValueFast(data, buffer) (p, err)
+//@   input data
+//@   assigns buffer.stackBuf
+//@   ensures err == nil ==> 0 <= p && p <= len(data)
+//
+//@ func HandleArrayValues(data, handler, buffer) (p, err)
+//@   input data
+//@   assigns buffer.stackBuf
+//@   ghost herr
+//@   ensures [C09] ghost_herr != nil ==> err == ghost_herr
+//@   ensures err == nil ==> 0 <= p && p <= len(data)
+//
+//@ func HandleObjectValues(data, handler, buffer) (p, err)
+//@   input data
+//@   assigns buffer.stackBuf
+//@   ghost herr
+//@   ensures [C09] ghost_herr != nil ==> err == ghost_herr
+//@   ensures err == nil ==> 0 <= p && p <= len(data)
+//
+//@ func Valid(data, buffer) (ok)
+//@   input data
+//@   assigns buffer.stackBuf
+// ---------------------------------------------------------------- token.go
+//@ func NextTokenType(data) (tp, p, err)
+//@   input data
+//@   ensures err == nil || err == io.EOF
+//@   ensures err == io.EOF ==> p == len(data) && tp == 0 && forall(j, 0, len(data), ws(data[j]))
+//@   ensures err == nil ==> 1 <= p && p <= len(data) && !ws(data[p-1]) && tp == tokclass(data[p-1]) && forall(j, 0, p-1, ws(data[j]))
+//
+//@ func NextToken(data) (token, p, err)
+//@   input data
+//@   ensures err == io.EOF ==> p == len(data) && token == 0 && forall(j, 0, len(data), ws(data[j]))
+//@   ensures err != io.EOF ==> 1 <= p && p <= len(data) && !ws(data[p-1]) && token == data[p-1] && forall(j, 0, p-1, ws(data[j]))
+//@   ensures err != io.EOF ==> (err == nil <==> tokclass(data[p-1]) != 0)
+// ---------------------------------------------------------------- simple_readers.go
+//@ func ReadUint64(data) (val, p, err)
+//@   input data
+//@   ensures err == nil ==> 0 <= p && p <= len(data)
+//@   defines (err == nil) == rok(ReadUint64, data)
+//@   defines err == nil ==> val == rval(ReadUint64, data) && p == rp(ReadUint64, data)
+//@   loop 1 invariant 0 <= startP && startP <= p && p <= len(data)
+//@   loop 1 decreases len(data) - p
+//@   loop 2 invariant 0 <= startP && startP <= p && p <= len(data)
+//@   loop 2 decreases len(data) - p
+//
+//@ func ReadUint32(data) (val, p, err)
+//@   input data
+//@   ensures err == nil ==> 0 <= p && p <= len(data)
+//@   defines (err == nil) == rok(ReadUint32, data)
+//@   defines err == nil ==> val == rval(ReadUint32, data) && p == rp(ReadUint32, data)
+//
+//@ func ReadInt64(data) (val, p, err)
+//@   input data
+//@   ensures err == nil ==> 0 <= p && p <= len(data)
+//@   defines (err == nil) == rok(ReadInt64, data)
+//@   defines err == nil ==> val == rval(ReadInt64, data) && p == rp(ReadInt64, data)
+//
+//@ func ReadInt32(data) (val, p, err)
+//@   input data
+//@   ensures err == nil ==> 0 <= p && p <= len(data)
+//@   defines (err == nil) == rok(ReadInt32, data)
+//@   defines err == nil ==> val == rval(ReadInt32, data) && p == rp(ReadInt32, data)
+//
+//@ func ReadInt(data) (val, p, err)
+//@   input data
+//@   ensures err == nil ==> 0 <= p && p <= len(data)
+//@   defines (err == nil) == rok(ReadInt, data)
+//@   defines err == nil ==> val == rval(ReadInt, data) && p == rp(ReadInt, data)
+//
+//@ func ReadUint(data) (val, p, err)
+//@   input data
+//@   ensures err == nil ==> 0 <= p && p <= len(data)
+//@   defines (err == nil) == rok(ReadUint, data)
+//@   defines err == nil ==> val == rval(ReadUint, data) && p == rp(ReadUint, data)
+//
+//@ func ReadFloat64(data) (val, p, err)
+//@   input data
+//@   ensures err == nil ==> 0 <= p && p <= len(data)
+//@   defines (err == nil) == rok(ReadFloat64, data)
+//@   defines err == nil ==> val == rval(ReadFloat64, data) && p == rp(ReadFloat64, data)
+//
+//@ func ReadBool(data) (val, p, err)
+//@   input data
+//@   ensures err == nil ==> 0 <= p && p <= len(data)
+//@   defines (err == nil) == rok(ReadBool, data)
+//@   defines err == nil ==> val == rval(ReadBool, data) && p == rp(ReadBool, data)
+//
+//@ func ReadNull(data) (p, err)
+//@   input data
+//@   ensures err == nil ==> 0 <= p && p <= len(data)
+//@   defines (err == nil) == rok(ReadNull, data)
+//@   defines err == nil ==> p == rp(ReadNull, data)
+//
+//@ func ReadStringBytes(data, buf) (val, p, err)
+//@   input data
+//@   ensures err == nil ==> 0 <= p && p <= len(data)
+//@   loop 1 invariant 0 < start && start <= p && p <= len(data)
+//@   loop 1 decreases len(data) - p
+//
+//@ func ReadString(data, buf) (val, p, err)
+//@   input data
+//@   assigns *buf
+//@   ensures err == nil ==> 0 <= p && p <= len(data)
+//@   defines (err == nil) == rok(ReadString, data)
+//@   defines err == nil ==> p == rp(ReadString, data)
+//@   loop 1 invariant 0 < start && start <= p && p <= len(data)
+//@   loop 1 decreases len(data) - p
+// ---------------------------------------------------------------- decode.go
+//@ func nullOrBust(data, origErr) (p, err)
+//@   input data
+//@   ensures rok(ReadNull, data) ==> p == rp(ReadNull, data) && err == nil && 0 <= p && p <= len(data)
+//@   ensures !rok(ReadNull, data) ==> p == 0 && err == origErr
+//
+//@ func DecodeBool(data, v) (p, err)
+//@   input data
+//@   requires v != nil
+//@   ensures rok(ReadBool, data) ==> err == nil && *v == rval(ReadBool, data) && p == rp(ReadBool, data)
+//@   ensures !rok(ReadBool, data) && rok(ReadNull, data) ==> err == nil && *v == old(*v) && p == rp(ReadNull, data)
+//@   ensures !rok(ReadBool, data) && !rok(ReadNull, data) ==> err != nil && *v == old(*v)
+//@   ensures err == nil ==> 0 <= p && p <= len(data)
+//
+//@ func DecodeFloat64(data, v) (p, err)
+//@   input data
+//@   requires v != nil
+//@   ensures rok(ReadFloat64, data) ==> err == nil && *v == rval(ReadFloat64, data) && p == rp(ReadFloat64, data)
+//@   ensures !rok(ReadFloat64, data) && rok(ReadNull, data) ==> err == nil && *v == old(*v) && p == rp(ReadNull, data)
+//@   ensures !rok(ReadFloat64, data) && !rok(ReadNull, data) ==> err != nil && *v == old(*v)
+//@   ensures err == nil ==> 0 <= p && p <= len(data)
+//
+//@ func DecodeInt64(data, v) (p, err)
+//@   input data
+//@   requires v != nil
+//@   ensures rok(ReadInt64, data) ==> err == nil && *v == rval(ReadInt64, data) && p == rp(ReadInt64, data)
+//@   ensures !rok(ReadInt64, data) && rok(ReadNull, data) ==> err == nil && *v == old(*v) && p == rp(ReadNull, data)
+//@   ensures !rok(ReadInt64, data) && !rok(ReadNull, data) ==> err != nil && *v == old(*v)
+//@   ensures err == nil ==> 0 <= p && p <= len(data)
+//
+//@ func DecodeInt32(data, v) (p, err)
+//@   input data
+//@   requires v != nil
+//@   ensures rok(ReadInt32, data) ==> err == nil && *v == rval(ReadInt32, data) && p == rp(ReadInt32, data)
+//@   ensures !rok(ReadInt32, data) && rok(ReadNull, data) ==> err == nil && *v == old(*v) && p == rp(ReadNull, data)
+//@   ensures !rok(ReadInt32, data) && !rok(ReadNull, data) ==> err != nil && *v == old(*v)
+//@   ensures err == nil ==> 0 <= p && p <= len(data)
+//
+//@ func DecodeInt(data, v) (p, err)
+//@   input data
+//@   requires v != nil
+//@   ensures rok(ReadInt, data) ==> err == nil && *v == rval(ReadInt, data) && p == rp(ReadInt, data)
+//@   ensures !rok(ReadInt, data) && rok(ReadNull, data) ==> err == nil && *v == old(*v) && p == rp(ReadNull, data)
+//@   ensures !rok(ReadInt, data) && !rok(ReadNull, data) ==> err != nil && *v == old(*v)
+//@   ensures err == nil ==> 0 <= p && p <= len(data)
+//
+//@ func DecodeUint64(data, v) (p, err)
+//@   input data
+//@   requires v != nil
+//@   ensures rok(ReadUint64, data) ==> err == nil && *v == rval(ReadUint64, data) && p == rp(ReadUint64, data)
+//@   ensures !rok(ReadUint64, data) && rok(ReadNull, data) ==> err == nil && *v == old(*v) && p == rp(ReadNull, data)
+//@   ensures !rok(ReadUint64, data) && !rok(ReadNull, data) ==> err != nil && *v == old(*v)
+//@   ensures err == nil ==> 0 <= p && p <= len(data)
+//
+//@ func DecodeUint32(data, v) (p, err)
+//@   input data
+//@   requires v != nil
+//@   ensures rok(ReadUint32, data) ==> err == nil && *v == rval(ReadUint32, data) && p == rp(ReadUint32, data)
+//@   ensures !rok(ReadUint32, data) && rok(ReadNull, data) ==> err == nil && *v == old(*v) && p == rp(ReadNull, data)
+//@   ensures !rok(ReadUint32, data) && !rok(ReadNull, data) ==> err != nil && *v == old(*v)
+//@   ensures err == nil ==> 0 <= p && p <= len(data)
+//
+//@ func DecodeUint(data, v) (p, err)
+//@   input data
+//@   requires v != nil
+//@   ensures rok(ReadUint, data) ==> err == nil && *v == rval(ReadUint, data) && p == rp(ReadUint, data)
+//@   ensures !rok(ReadUint, data) && rok(ReadNull, data) ==> err == nil && *v == old(*v) && p == rp(ReadNull, data)
+//@   ensures !rok(ReadUint, data) && !rok(ReadNull, data) ==> err != nil && *v == old(*v)
+//@   ensures err == nil ==> 0 <= p && p <= len(data)
+//
+//@ func DecodeString(data, v, buf) (p, err)
+//@   input data
+//@   requires v != nil
+//@   assigns *buf
+//@   ensures rok(ReadString, data) ==> err == nil && p == rp(ReadString, data)
+//@   ensures !rok(ReadString, data) && rok(ReadNull, data) ==> err == nil && *v == old(*v) && p == rp(ReadNull, data)
+//@   ensures !rok(ReadString, data) && !rok(ReadNull, data) ==> err != nil && *v == old(*v)
+//@   ensures err == nil ==> 0 <= p && p <= len(data)
